@@ -51,6 +51,30 @@ func (q *Command) Sanitize(args ...any) (string, error) {
 				str = "null"
 			case int64:
 				str = strconv.FormatInt(arg, 10)
+			// an integer or a float of any Go type is an integer or a float
+			case int:
+				str = strconv.FormatInt(int64(arg), 10)
+			case int32:
+				str = strconv.FormatInt(int64(arg), 10)
+			case int16:
+				str = strconv.FormatInt(int64(arg), 10)
+			case int8:
+				str = strconv.FormatInt(int64(arg), 10)
+			case uint:
+				str = strconv.FormatUint(uint64(arg), 10)
+			case uint64:
+				str = strconv.FormatUint(arg, 10)
+			case uint32:
+				str = strconv.FormatUint(uint64(arg), 10)
+			case uint16:
+				str = strconv.FormatUint(uint64(arg), 10)
+			case uint8:
+				str = strconv.FormatUint(uint64(arg), 10)
+			case float32:
+				if math.IsNaN(float64(arg)) || math.IsInf(float64(arg), 0) {
+					return "", fmt.Errorf("invalid arg value: %v has no SQL literal", arg)
+				}
+				str = strconv.FormatFloat(float64(arg), 'f', -1, 32)
 			case float64:
 				// NaN and the infinities have no literal: written out they
 				// would be read as column names
